@@ -4,9 +4,9 @@ package main
 // construction; the remainder is free random. All random choices come from one PRNG.
 
 import (
-	"strings"
 	"fmt"
 	"math/rand"
+	"strings"
 )
 
 const farFuture = 100000000
@@ -29,6 +29,8 @@ type genOpts struct {
 	webAccount bool
 	// rsaServicePct: how often (%) the service's own key is an RSA key
 	rsaServicePct int
+	// urlWorld: resources are hierarchical URLs read by the library's URI reader (otherwise one world in six)
+	urlWorld bool
 }
 
 type wb struct {
@@ -150,6 +152,10 @@ func genWorld(r *rand.Rand, now int, o genOpts, class *string) *AWorld {
 		can = ns + "/" + []string{"blob", "index"}[r.Intn(2)] + "/" + verb
 	}
 	w.Desc = ADesc{Can: can, With: []string{"any", "did", "libdid"}[r.Intn(3)], Derives: "default"}
+	urlWorld := r.Intn(6) == 0 || o.urlWorld // resources are hierarchical URLs read by the library's URI reader; an owner table says who may issue them
+	if urlWorld {
+		w.Desc.With = "liburi"
+	}
 	if o.caveats {
 		w.Desc.Derives = []string{"default", "eq", "le"}[r.Intn(3)]
 	}
@@ -157,6 +163,13 @@ func genWorld(r *rand.Rand, now int, o genOpts, class *string) *AWorld {
 	depth := o.minDepth + r.Intn(o.maxDepth-o.minDepth+1)
 	owner := b.keyPrincipal(w.AuthorityKey)
 	resource := fmt.Sprintf("@%d", owner)
+	if urlWorld {
+		resource = fmt.Sprintf("@%d=", owner)
+		if r.Intn(3) == 0 {
+			resource = fmt.Sprintf("@%d=sub", owner)
+		}
+		w.CanIssue = "table"
+	}
 	chain := []int{owner}
 	for i := 0; i < depth; i++ {
 		chain = append(chain, b.keyPrincipal(w.AuthorityKey))
@@ -204,7 +217,14 @@ func genWorld(r *rand.Rand, now int, o genOpts, class *string) *AWorld {
 			caps = append(caps, b.otherCap())
 		}
 		with := resource
-		if i > 1 || true {
+		if urlWorld {
+			switch r.Intn(5) {
+			case 0:
+				with = "ucan:*"
+			case 1:
+				with = fmt.Sprintf("@%d=star", owner)
+			}
+		} else if i > 1 || true {
 			switch r.Intn(6) {
 			case 0:
 				with = "ucan:*"
@@ -313,6 +333,13 @@ func genWorld(r *rand.Rand, now int, o genOpts, class *string) *AWorld {
 		}
 	}
 	w.Inv = b.addToken(inv)
+	if urlWorld {
+		// who owns the URL resources: the root issuer, for every spelling the chain uses that the root could grant
+		w.Table = []ATableRow{{With: fmt.Sprintf("@%d=", owner), P: owner}, {With: fmt.Sprintf("@%d=sub", owner), P: owner}}
+		if strings.HasPrefix(resource, "@") && !strings.HasSuffix(resource, "=") && !strings.HasSuffix(resource, "=sub") {
+			w.Table = append(w.Table, ATableRow{With: resource, P: owner})
+		}
+	}
 	return w
 }
 
@@ -395,7 +422,7 @@ func (b *wb) attestations(id int, holder int, force int) []int {
 
 const specialBase = 1000 // caveat values 1000.. are written as empty list, empty map, empty string, false, {a:1}, {a:1,b:2}, {b:2}
 
-var defectKinds = []string{"nearmiss", "twincap", "tamper-wrapped", "didurl", "case", "misaligned2", "none", "wrongkey", "tamper", "aud", "resource", "ability", "nonowner", "expired", "tooearly", "algcode", "revoke", "missing", "policy", "decoys", "permute", "nbf-ok", "dup", "parsefail", "deadend"}
+var defectKinds = []string{"nearmiss", "twincap", "tamper-wrapped", "didurl", "case", "misaligned2", "urlnear", "none", "wrongkey", "tamper", "aud", "resource", "ability", "nonowner", "expired", "tooearly", "algcode", "revoke", "missing", "policy", "decoys", "permute", "nbf-ok", "dup", "parsefail", "deadend"}
 
 func applyDefect(r *rand.Rand, w *AWorld, kind string) {
 	n := len(w.Tokens)
@@ -438,7 +465,18 @@ func applyDefect(r *rand.Rand, w *AWorld, kind string) {
 			c := &t.Caps[r.Intn(len(t.Caps))]
 			c.With = fmt.Sprintf("@%d", r.Intn(len(w.Principals)))
 		}
+	case "urlnear":
+		// a URL that differs from the granted / claimed one only in host case, a trailing slash or an escape
+		if len(t.Caps) > 0 {
+			c := &t.Caps[r.Intn(len(t.Caps))]
+			if strings.HasPrefix(c.With, "@") && strings.HasSuffix(c.With, "=") {
+				c.With += []string{"lower", "noslash", "unescaped"}[r.Intn(3)]
+			}
+		}
 	case "didurl":
+		if w.Desc.With == "liburi" {
+			break
+		}
 		// the same DID followed by a fragment, path or query, or with its scheme in upper case: other resources
 		if len(t.Caps) > 0 {
 			c := &t.Caps[r.Intn(len(t.Caps))]
@@ -460,7 +498,7 @@ func applyDefect(r *rand.Rand, w *AWorld, kind string) {
 				if r.Intn(2) == 0 {
 					c.Can = swapCase(c.Can)
 				}
-			} else if len(c.With) > 0 && c.With[0] == '@' && c.With[len(c.With)-1] != '*' {
+			} else if len(c.With) > 0 && c.With[0] == '@' && c.With[len(c.With)-1] != '*' && w.Desc.With != "liburi" && !strings.Contains(c.With, "=") {
 				c.With += "^"
 			}
 		}
@@ -516,6 +554,14 @@ func applyDefect(r *rand.Rand, w *AWorld, kind string) {
 		t.AlgOk = false
 	case "revoke":
 		w.Revoked = append(w.Revoked, ti)
+	case "revoke-att":
+		// the attestation of a session (issued by the service itself) is revoked
+		for i, x := range w.Tokens {
+			if len(x.Caps) > 0 && x.Caps[0].Can == "ucan/attest" {
+				w.Revoked = append(w.Revoked, i)
+				break
+			}
+		}
 	case "missing":
 		if len(t.Prfs) > 0 {
 			k := r.Intn(len(t.Prfs))
